@@ -171,6 +171,18 @@ def check(run: Run) -> None:
     for t in ts:
         run.check("C03.R2", "a parenthesised group is the OR of its alternatives", t == Term("or_", tuple(sorted((p1, p2), key=repr))), "or_filters", repr(t)[:200],
                   f"(P1 | P2) translates to `{t!r}`"[:300], file=FILE)
+    # two parenthesised groups juxtaposed in one conjunction: (P1 | P2) (P3 | P4) is the AND of the two ORs
+    def two_groups(st):
+        mk = lambda ps: obj(st, "zorg.domain.models._query.WhereOrFilter", and_filters=st.alloc(HObj("list", items=[and_filter(st, priorities=[p]) for p in ps])))
+        return [mk(("P1", "P2")), mk(("P3", "P4"))]
+    ts = _single(run, "C03.R2", "or_filters", run_helper(I, "or_filters", or_filters=two_groups))
+    P = {p: Term("==", (Term("col", ("Note", "todo_priority")), p)) for p in ("P1", "P2", "P3", "P4")}
+    for t in ts:
+        args = connective_args(t, "and_")
+        got = None if args is None else sorted((sorted(repr(x) for x in (connective_args(a, "or_") or [])) for a in args))
+        want = sorted([sorted([repr(P["P1"]), repr(P["P2"])]), sorted([repr(P["P3"]), repr(P["P4"])])])
+        run.check("C03.R2", "two juxtaposed groups are the AND of their ORs", got == want, "or_filters", repr(t)[:200],
+                  f"(P1 | P2) (P3 | P4) translates to `{t!r}`"[:400] + ": expected (P1 OR P2) AND (P3 OR P4) -- juxtaposition of groups is no longer AND", file=FILE)
     st = State()
     af1 = and_filter(st, priorities=["P1"], areas=["a"])
     af2 = and_filter(st, priorities=["P2"])
@@ -271,6 +283,14 @@ def check(run: Run) -> None:
         want_head = ".in_" if cs else ".ilike"
         run.check("C03.R2", f"text filter ({'case-sensitive' if cs else 'case-insensitive'}) uses {want_head}", bool(p) and all(_outer(t)[0] == want_head for t in p), "desc_filters", f"cs={cs}: {[_outer(t)[0] for t in p]}",
                   f"text filter (case_sensitive={cs}) uses {[_outer(t)[0] for t in p]}", file=FILE)
+    # smart case (no `c` prefix: case_sensitive is None): text containing an upper-case letter is matched case-sensitively -- all-upper AND mixed case --, all-lower text is not
+    for text, want_cs in (("alice", False), ("ALICE", True), ("Alice", True), ("mcDonald 2", True), ("plain text_1", False)):
+        ts = _single(run, "C03.R2", "desc_filters", run_helper(I, "desc_filters", desc_filters=lambda st, text=text: [obj(st, "DescFilter", value=text, case_sensitive=None, op=DOp["CONTAINS"])]))
+        for t in ts:
+            head = _outer(t)[0]
+            run.check("C03.R2", f"smart case: '{text}' is matched {'case-sensitively' if want_cs else 'case-insensitively'}", head == (".in_" if want_cs else ".ilike"), "desc_filters", f"'{text}' -> {head}",
+                      f"the quoted text '{text}' (no c prefix) is translated through `{head}`, i.e. matched {'case-insensitively' if head == '.ilike' else 'case-sensitively'}; smart case means case-sensitive "
+                      "iff the text contains an upper-case letter", file=FILE)
     p, n = pair("file_filters", lambda neg: dict(file_filters=lambda st, neg=neg: [obj(st, "FileFilter", path_glob=vtxt(), negated=neg)]))
     complement("f=glob", p, n, "file_filters")
     run.check("C03.R2", "f= matches Page.path with LIKE", bool(p) and all(_outer(t)[0] == ".like" and _outer(t)[1][0] == Term("col", ("Page", "path")) for t in p), "file_filters", "file filter column",
